@@ -179,6 +179,22 @@ func vh_C15_Cor_YieldFrom() {
 	vfReach("end")
 }
 
+// one request racing with the target's completion: the target returns (its gate opens) at any moment relative to a
+// YieldFrom that is just being made - nobody panics, the caller is released, the target is done
+func vh_C15_Cor_RequestVsCompletion() {
+	gate := make(chan struct{})
+	var target, caller *CorDef[int]
+	target = CorNewGenerics[int](func() { <-gate }) // serves nobody
+	caller = CorNewGenerics[int](func() {})
+	target.Start()
+	vfQuiesce()
+	returned := false
+	c15Race(func() { caller.YieldFrom(target, vfInt("request")); returned = true }, func() { close(gate) })
+	vfAssert("target-done", target.IsDone())
+	vfAssert("caller-released-when-target-completes", returned)
+	vfReach("end")
+}
+
 // a coroutine that completes while SEVERAL YieldFrom requests are queued on it releases every one of those callers
 func vh_C15_Cor_ManyPendingAtCompletion() {
 	callers := vfRange("callers", 2, 4)
